@@ -128,7 +128,7 @@ def make_cfg(rng, events=("Probe",), long_steps=False):
         for g in ("A", "H"):
             cfg[g]["markets"] = names + [x for x in cfg[g]["markets"] if x != "M"]
     tgt = rng.sample(names, rng.randint(1, len(names)))
-    cfg["PriceLimit"] = {"class": "PriceLimitRule", "targetMarkets": tgt, "triggerChangeRate": rng.choice([0.01, 0.03, 0.1])}
+    cfg["PriceLimit"] = {"class": "PriceLimitRule", "targetMarkets": tgt, "triggerChangeRate": rng.choice([0.01, 0.03, 0.1, 0.0])}      # rate 0: the band is the single reference price
     cfg["Halt"] = {"class": "TradingHaltRule", "targetMarkets": rng.sample(names, rng.randint(1, len(names))), "triggerChangeRate": rng.choice([0.005, 0.02, 0.05]),
                    "haltingTimeLength": rng.choice([1, 2, 5, 10, 0])}
     cfg["Mistake"] = {"class": "OrderMistakeShock", "target": rng.choice(names), "triggerTime": rng.randint(0, 3), "priceChangeRate": rng.choice([-0.1, 0.1, 0.3]),
